@@ -879,7 +879,14 @@ def module_model(name):
     return None
 
 
+class _TypeMarker:
+    def __init__(self, name):
+        self.__name__ = name
+
+
 def from_import(modname, name):
+    if modname == 'numbers' and name in ('Integral', 'Number', 'Real'):
+        return _TypeMarker(name)
     if modname == 'collections' and name == 'namedtuple':
         def namedtuple(I, tname, fields):
             if isinstance(fields, str):
